@@ -225,9 +225,10 @@ def stackBase : Nat := 26
 open Kind in
 /-- run-time requests of activation j, j+1, ... of `function f(n) { if (n<=0) return 0; return 1+f(n-1) }`
     (`more` further activations follow this one).  While the body of activation j runs, 2+2j expression
-    evaluations are active (print, f(..), and `1+f(..)`, `f(..)` per earlier activation) and 1+j blocks. -/
+    evaluations are active (print, f(..), and `1+f(..)`, `f(..)` per earlier activation) and 1+j blocks; the
+    then-part `return 0`, which only the last activation runs, is a statement nested without braces: one more level. -/
 def recurFrom : Nat → Nat → List Req
-  | 0, j => [⟨stack, stackBase + 5 * j + 5⟩, ⟨blockRun, 2 + j⟩, ⟨exprRun, 2 * j + 4⟩]
+  | 0, j => [⟨stack, stackBase + 5 * j + 5⟩, ⟨blockRun, 2 + j⟩, ⟨exprRun, 2 * j + 4⟩, ⟨blockRun, 3 + j⟩]
   | more + 1, j =>
     [⟨stack, stackBase + 5 * j + 5⟩, ⟨blockRun, 2 + j⟩, ⟨exprRun, 2 * j + 4⟩, ⟨exprRun, 2 * j + 6⟩] ++ recurFrom more (j + 1)
 
@@ -236,7 +237,7 @@ open Kind in
     fewer arguments than it declares: hawk_rtx_evalcall asks for the whole frame up front,
     `stack_req = 4 + call->nargs + (fun->nargs - call->nargs)` = `frame`, with `base + frame * j` slots in use -/
 def padFrom (frame base : Nat) : Nat → Nat → List Req
-  | 0, j => [⟨stack, base + frame * j + frame⟩, ⟨blockRun, 2 + j⟩, ⟨exprRun, 2 * j + 4⟩]
+  | 0, j => [⟨stack, base + frame * j + frame⟩, ⟨blockRun, 2 + j⟩, ⟨exprRun, 2 * j + 4⟩, ⟨blockRun, 3 + j⟩]
   | more + 1, j =>
     [⟨stack, base + frame * j + frame⟩, ⟨blockRun, 2 + j⟩, ⟨exprRun, 2 * j + 4⟩, ⟨exprRun, 2 * j + 6⟩] ++ padFrom frame base more (j + 1)
 
@@ -255,12 +256,16 @@ def parseReqs : Family → Nat → List Req
   | .paren, n | .unary, n | .lnot, n | .ternary, n | .index, n | .call, n | .dollar, n | .getline, n | .pipe, n =>
       ⟨blockParse, 1⟩ :: ramp exprParse 0 (n + 2)
   | .assign, n => ⟨blockParse, 1⟩ :: ramp exprParse 0 (n + 1)
-  | .leftBin, _ | .concat, _ | .ifChain, _ | .elseIf, _ | .whileChain, _ | .regex, _ => [⟨blockParse, 1⟩, ⟨exprParse, 1⟩, ⟨exprParse, 2⟩]
+  | .leftBin, _ | .concat, _ | .regex, _ => [⟨blockParse, 1⟩, ⟨exprParse, 1⟩, ⟨exprParse, 2⟩]
+  -- a statement nested without braces is one block level (parse_statement_withdc): `if(1) if(1) .. x=1`
+  | .ifChain, n | .whileChain, n => ramp blockParse 0 (n + 1) ++ [⟨exprParse, 1⟩, ⟨exprParse, 2⟩]
+  -- an else-if ladder is parsed in a loop and costs no level; its then-parts and the final else part cost one
+  | .elseIf, n => ramp blockParse 0 (1 + min n 1) ++ [⟨exprParse, 1⟩, ⟨exprParse, 2⟩]
   | .block, n => ramp blockParse 0 (n + 1) ++ [⟨exprParse, 1⟩, ⟨exprParse, 2⟩]
-  | .recur, _ | .recurPad _ _ _, _ => [⟨blockParse, 1⟩, ⟨exprParse, 1⟩, ⟨exprParse, 2⟩, ⟨exprParse, 3⟩]
+  | .recur, _ | .recurPad _ _ _, _ => [⟨blockParse, 1⟩, ⟨blockParse, 2⟩, ⟨exprParse, 1⟩, ⟨exprParse, 2⟩, ⟨exprParse, 3⟩]
   | .chainFree, _ => [⟨blockParse, 1⟩, ⟨exprParse, 1⟩, ⟨exprParse, 2⟩]
-  | .exitRec _, _ => [⟨blockParse, 1⟩, ⟨exprParse, 1⟩, ⟨exprParse, 2⟩, ⟨exprParse, 3⟩]
-  | .exitBlk _, n => [⟨blockParse, 1⟩, ⟨exprParse, 1⟩, ⟨exprParse, 2⟩, ⟨exprParse, 3⟩] ++ ramp blockParse 0 (n + 1)
+  | .exitRec _, _ => [⟨blockParse, 1⟩, ⟨blockParse, 2⟩, ⟨exprParse, 1⟩, ⟨exprParse, 2⟩, ⟨exprParse, 3⟩]
+  | .exitBlk _, n => [⟨blockParse, 1⟩, ⟨blockParse, 2⟩, ⟨exprParse, 1⟩, ⟨exprParse, 2⟩, ⟨exprParse, 3⟩] ++ ramp blockParse 0 (n + 1)
   | .mapNest, _ => [⟨blockParse, 1⟩, ⟨exprParse, 1⟩, ⟨exprParse, 2⟩, ⟨blockParse, 2⟩, ⟨exprParse, 3⟩]
   | .incl, n => ramp incl 0 n ++ [⟨blockParse, 1⟩, ⟨exprParse, 1⟩, ⟨exprParse, 2⟩]
   | .seq, _ => ⟨blockParse, 1⟩ :: ⟨blockParse, 2⟩ :: ramp exprParse 0 5
@@ -268,7 +273,9 @@ def parseReqs : Family → Nat → List Req
 open Kind in
 /-- run-time requests (only performed when parsing succeeded) -/
 def runReqs : Family → Nat → List Req
-  | .paren, _ | .ifChain, _ | .elseIf, _ | .whileChain, _ => [⟨blockRun, 1⟩, ⟨exprRun, 1⟩, ⟨exprRun, 2⟩]
+  | .paren, _ => [⟨blockRun, 1⟩, ⟨exprRun, 1⟩, ⟨exprRun, 2⟩]
+  | .ifChain, n | .whileChain, n => ramp blockRun 0 (n + 1) ++ [⟨exprRun, 1⟩, ⟨exprRun, 2⟩]
+  | .elseIf, n => ramp blockRun 0 (1 + min n 1) ++ [⟨exprRun, 1⟩, ⟨exprRun, 2⟩]
   | .unary, n | .lnot, n | .leftBin, n | .concat, n | .ternary, n | .index, n | .dollar, n | .getline, n | .pipe, n =>
       ⟨blockRun, 1⟩ :: ramp exprRun 0 (n + 2)
   | .assign, n => ⟨blockRun, 1⟩ :: ramp exprRun 0 (n + 1)
@@ -318,9 +325,11 @@ def outcome (l : Limits) (f : Family) (n : Nat) : Outcome :=
 def peakOf : Family → Kind → Nat → Nat
   | .incl, .incl, n => n
   | _, .incl, _ => 0
-  | .block, .blockParse, n => n + 1
+  | .block, .blockParse, n | .ifChain, .blockParse, n | .whileChain, .blockParse, n => n + 1
+  | .elseIf, .blockParse, n => 1 + min n 1
+  | .recur, .blockParse, _ | .recurPad _ _ _, .blockParse, _ | .exitRec _, .blockParse, _ => 2
   | .mapNest, .blockParse, _ | .seq, .blockParse, _ => 2
-  | .exitBlk _, .blockParse, n => n + 1
+  | .exitBlk _, .blockParse, n => max 2 (n + 1)
   | _, .blockParse, _ => 1
   | .paren, .exprParse, n | .unary, .exprParse, n | .lnot, .exprParse, n | .ternary, .exprParse, n | .index, .exprParse, n
   | .call, .exprParse, n | .dollar, .exprParse, n | .getline, .exprParse, n | .pipe, .exprParse, n => n + 2
@@ -328,10 +337,11 @@ def peakOf : Family → Kind → Nat → Nat
   | .seq, .exprParse, _ => 5
   | .recur, .exprParse, _ | .mapNest, .exprParse, _ | .recurPad _ _ _, .exprParse, _ | .exitRec _, .exprParse, _ | .exitBlk _, .exprParse, _ => 3
   | _, .exprParse, _ => 2
-  | .block, .blockRun, n => n + 1
-  | .recur, .blockRun, n | .recurPad _ _ _, .blockRun, n => n + 2
-  | .exitRec d, .blockRun, n => max (d + 2) (n + 2)
-  | .exitBlk d, .blockRun, n => max (d + 2) (n + 1)
+  | .block, .blockRun, n | .ifChain, .blockRun, n | .whileChain, .blockRun, n => n + 1
+  | .elseIf, .blockRun, n => 1 + min n 1
+  | .recur, .blockRun, n | .recurPad _ _ _, .blockRun, n => n + 3
+  | .exitRec d, .blockRun, n => max (d + 3) (n + 3)
+  | .exitBlk d, .blockRun, n => max (d + 3) (n + 1)
   | .seq, .blockRun, _ => 3
   | .call, .blockRun, _ | .mapNest, .blockRun, _ | .incl, .blockRun, _ => 2
   | _, .blockRun, _ => 1
